@@ -195,10 +195,13 @@ def run_history(h, agg):
     from vfy import cps, env
 
     cps.reset_sandbox()
+    # (every other history spells the configured named-files directory in a way os.path.normpath would change)
+    dotted = sum(len(op) for op in h) % 2 == 1
+    env.write_config(".", files_dir="./inputs/named_files" if dotted else "inputs/named_files")
     cs = env.new_csvpaths()
     observer = env.new_csvpaths()  # long-lived, only ever reads: stale in-memory state would show here
     model = Model()
-    w = {"history": [list(op) for op in h]}
+    w = {"history": [list(op) for op in h], "configured_named_files_dir": "./inputs/named_files" if dotted else "inputs/named_files"}
     for i, op in enumerate(h):
         w["step"] = i
         agg.count("operations")
@@ -252,10 +255,15 @@ def run_one(h, agg):
 
 
 def run_shard(spec, agg):
-    for i, h in enumerate(all_histories(spec["tier"], spec["seed"])):
-        if i % spec["nshards"] != spec["shard"]:
-            continue
-        run_one(h, agg)
+    from vfy import env
+
+    try:
+        for i, h in enumerate(all_histories(spec["tier"], spec["seed"])):
+            if i % spec["nshards"] != spec["shard"]:
+                continue
+            run_one(h, agg)
+    finally:
+        env.write_config(".")
 
 
 def replay(case, agg):
